@@ -11,6 +11,20 @@ CLAIMED = {
    note="Trusted: go/ssa translation of the two functions, the ~250-line RLIN evaluator, math/big. An arithmetic operator outside {+,-,*const,/const,%const, comparisons uniform per class} is reported as a failed obligation, not silently accepted.",
    technique="residue-linear symbolic evaluation of SSA (abstract interpretation over linear forms) + comparison-orientation census",
  ),
+ "C16": dict(
+   category="other",
+   text="Structural necessary conditions, decided exactly on SSA: lockset dataflow over all 22 methods of the 7 tmmemstore types (every access to a guarded field or anything reached from it under the receiver mutex, writes under Lock, exactly one acquisition per method, so each method is one atomic step); guard dominance for the no-overwrite contracts (double action, key change, finalization overwrite, duplicate validator data); key/value wiring of every map write and load and the documented not-found error on every miss edge.",
+   design_ref="DESIGN.md §4 C16",
+   note="Decides atomicity-by-locking and the refusal/wiring guards, not full sequential equivalence with a reference model (e.g. the merged header list of RoundStore.LoadRoundState) nor aliasing of slices handed in/out. Trusted: sync.Mutex semantics, go/ssa.",
+   technique="lockset dataflow on SSA + guard edge-dominance + value-shape wiring checks",
+ ),
+ "C20": dict(
+   category="other",
+   text="Structural necessary conditions decided on SSA: ValidationAccept only on the FeedbackAccepted edge of the feedback mapping and default Ignore; every registered libp2p topic validator returns Accept only for self-originated messages or as the mapping of a ConsensusHandler.Handle* result after a successful decode; the validator is never unregistered outside Disconnect; the in-memory DaisyChain forwards a neighbour's message only on the Handle*==FeedbackAccepted edge; shipped mappers map only acceptance results to FeedbackAccepted. Three genuine defects are recorded as known findings (handler-swap window, nil-handler pass-through x2).",
+   design_ref="DESIGN.md §4 C20",
+   note="Does not decide libp2p-pubsub's relay behaviour or timing beyond the absence of an unregister call. Trusted: pubsub relays exactly what validators accept.",
+   technique="guard edge-dominance on SSA CFG, who-may-call, enum/case analysis of mapping switches, value provenance of forwarded messages",
+ ),
 }
 
 NOT_APPLICABLE = {
